@@ -1,7 +1,142 @@
 import Driver.Util
+import Model.Checkpoint
+import Model.Sha256
+/-!
+Driver for engine `ckpt` (C11). Line protocol `<op> <args…> = <implementation result…>`; the model
+result is recomputed with the definitions of `Model/Checkpoint.lean` / `Model/Codec.lean`.
+
+  b64d  bytes = OK <hex> | ERR                      base64.StdEncoding.DecodeString
+  b64e  bytes = <hex>                               base64.StdEncoding.EncodeToString
+  sth   n ts root = <hex> | ERR                     ct.SerializeSTHSignatureInput
+  dsig  rawsig = <hex> | ERR                        digitallySign framing of the raw ECDSA signature
+  ckparse text = OK origin n hash ext | ERR         torchwood.ParseCheckpoint
+  ckfmt origin n hash ext = <hex>                   Checkpoint.String
+  verify name kind msg sig cvsth cvsig cvans = 0|1  NewRFC6962Verifier(name,key).Verify(msg,sig); the raw
+        signature check is answered by the harness: `cv _ m s := m = cvsth ∧ s = cvsig ∧ cvans`
+  inject name kind ths ts msg cvsth cvsig cvans = OK <blob> | ERR    NewRFC6962InjectedSigner(...).Sign(msg)
+  sigts bytes = OK ts | ERR                         RFC6962SignatureTimestamp (bytes include the 4-byte key hash)
+  keyhash name keyid = <uint32>                     verifier.KeyHash()
+  signed name n ts root blob = OK text ts hashAlg sigAlg | ERR      signTreeHead (symbolic signatures decide only success)
+  open name now kh1 kh2 text k (sname shash sig v1ok v2ok)*k = OK origin n hash ts | ERR <class>   openCheckpoint
+-/
 namespace Driver.Ckpt
-/-- stub: engine not implemented yet -/
+open _root_.Codec _root_.Checkpoint
+
+def hx (bs : Bytes) : String := Bytes.toHexP bs
+
+def kindOf (s : String) : Option KeyKind :=
+  if s == "ecdsa" then some .ecdsa else if s == "rsa" then some .rsa else if s == "other" then some .other else none
+
+def openErr : OpenErr → String
+  | .ambiguous => "ambiguous" | .invalidSignature => "invalid-signature" | .unverified => "unverified"
+  | .malformed => "malformed" | .missingSignature => "missing-signature" | .badTimestamp => "bad-timestamp"
+  | .parse => "parse" | .future => "future" | .origin => "origin" | .extension => "extension"
+
+def tableCv (cvsth cvsig : String) (cvans : String) : Option Crypto := do
+  let ans := cvans == "1"
+  if cvsth == "-" then pure (fun _ _ _ => false) else
+  let m0 ← Bytes.ofHex cvsth
+  let s0 ← Bytes.ofHex cvsig
+  pure (fun _ m s => m == m0 && s == s0 && ans)
+
+structure OpenSig where
+  line : SigLine
+  v1ok : Bool
+  v2ok : Bool
+
+def parseSigs : Nat → List String → Option (List OpenSig)
+  | 0, [] => some []
+  | k+1, sname :: shash :: sig :: a :: b :: rest => do
+    let l : SigLine := { name := ← Bytes.ofHex sname, hash := ← shash.toNat?, sig := ← Bytes.ofHex sig }
+    let tl ← parseSigs k rest
+    pure ({ line := l, v1ok := a == "1", v2ok := b == "1" } :: tl)
+  | _, _ => none
+
+def eval (op : String) (a : List String) : Option (String × String) :=
+  match op, a with
+  | "b64d", [b] => do
+    match b64Decode (← Bytes.ofHex b) with
+    | some o => pure (s!"OK {hx o}", "b64d-ok")
+    | none => pure ("ERR", "b64d-err")
+  | "b64e", [b] => do pure (hx (b64Encode (← Bytes.ofHex b)), "b64e")
+  | "sth", [n, ts, root] => do
+    match sthInput (← n.toNat?) (← ts.toNat?) (← Bytes.ofHex root) with
+    | some o => pure (hx o, "sth-ok")
+    | none => pure ("ERR", "sth-err")
+  | "dsig", [raw] => do
+    match digitallySigned (← Bytes.ofHex raw) with
+    | some o => pure (hx o, "dsig-ok")
+    | none => pure ("ERR", "dsig-err")
+  | "ckparse", [t] => do
+    match parseCheckpoint (← Bytes.ofHex t) with
+    | some c => pure (s!"OK {hx c.origin} {c.n} {hx c.hash} {hx c.ext}", if c.ext.isEmpty then "ckparse-ok" else "ckparse-ok-ext")
+    | none => pure ("ERR", "ckparse-err")
+  | "ckfmt", [o, n, h, e] => do
+    pure (hx (formatCheckpoint { origin := ← Bytes.ofHex o, n := ← n.toInt?, hash := ← Bytes.ofHex h, ext := ← Bytes.ofHex e }), "ckfmt")
+  | "verify", [name, kind, msg, sig, cvsth, cvsig, cvans] => do
+    let cv ← tableCv cvsth cvsig cvans
+    let r := verifier cv (← Bytes.ofHex name) { kind := ← kindOf kind, id := [] } (← Bytes.ofHex msg) (← Bytes.ofHex sig)
+    pure (if r then "1" else "0", s!"verify-{kind}-{if r then "accept" else "reject"}")
+  | "inject", [name, kind, ths, ts, msg, cvsth, cvsig, cvans] => do
+    let cv ← tableCv cvsth cvsig cvans
+    match injectedSign cv (← Bytes.ofHex name) { kind := ← kindOf kind, id := [] } (← Bytes.ofHex ths) (← ts.toInt?) (← Bytes.ofHex msg) with
+    | some b => pure (s!"OK {hx b}", "inject-ok")
+    | none => pure ("ERR", "inject-refused")
+  | "sigts", [b] => do
+    match sigTimestamp ((← Bytes.ofHex b).drop 4) with
+    | some ts => if (← Bytes.ofHex b).length < 4 then pure ("ERR", "sigts-err") else pure (s!"OK {ts}", "sigts-ok")
+    | none => pure ("ERR", "sigts-err")
+  | "keyhash", [name, keyid] => do
+    let pre := (← Bytes.ofHex name) ++ [10, 5] ++ (← Bytes.ofHex keyid)
+    let h := Bytes.ofByteArray (Sha256.hash (Bytes.toByteArray pre))
+    pure (toString (fromBE (h.take 4)), "keyhash")
+  | "signed", [name, n, ts, root, blob] => do
+    let key : PubKey := { kind := .ecdsa, id := [1] }
+    let wkey : PubKey := { kind := .other, id := [2] }
+    let cfg : Config := { name := ← Bytes.ofHex name, key := key, keyHash := 1, witnessKey := wkey, witnessKeyHash := 2 }
+    let ts ← ts.toInt?
+    match signTreeHead symCv symSign cfg (← n.toInt?) ts (← Bytes.ofHex root) 0 [] false with
+    | none => pure ("ERR", "signed-err")
+    | some note =>
+      let blob ← Bytes.ofHex blob
+      match parseNoteSig blob with
+      | none => pure (s!"OK {hx note.text} BADBLOB", "signed-badblob")
+      | some s =>
+        if s.encode == blob && (digitallySigned s.signature).map (injectedBlob ts) == some blob
+        then pure (s!"OK {hx note.text} {s.timestamp} {s.hashAlg} {s.sigAlg}", "signed-ok")
+        else pure (s!"OK {hx note.text} BADBLOB", "signed-badblob")
+  | "open", name :: now :: kh1 :: kh2 :: text :: k :: rest => do
+    let name ← Bytes.ofHex name
+    let sigs ← parseSigs (← k.toNat?) rest
+    let look (pick : OpenSig → Bool) (hash : Nat) : Bytes → Bytes → Bool := fun _ sig =>
+      match sigs.find? (fun s => s.line.sig == sig && s.line.hash == hash && s.line.name == name) with
+      | some s => pick s
+      | none => false
+    let kh1 ← kh1.toNat?
+    let kh2 ← kh2.toNat?
+    let v1 : NoteVerifier := { name := name, hash := kh1, verify := look (·.v1ok) kh1 }
+    let v2 : NoteVerifier := { name := name, hash := kh2, verify := look (·.v2ok) kh2 }
+    match openCheckpointWith v1 v2 name (← now.toInt?) { text := ← Bytes.ofHex text, sigs := sigs.map (·.line) } with
+    | .ok (c, ts) => pure (s!"OK {hx c.origin} {c.n} {hx c.hash} {ts}", "open-ok")
+    | .error e => pure (s!"ERR {openErr e}", s!"open-{openErr e}")
+  | _, _ => none
+
 def main : IO UInt32 := do
-  IO.println "MISMATCH 0 engine ckpt has no driver yet"
+  let t ← Driver.foldLines ({} : Driver.Tally) fun t n l => do
+    let t := { t with lines := t.lines + 1 }
+    match l.splitOn " = " with
+    | [lhs, impl] =>
+      match Driver.words lhs with
+      | op :: args =>
+        match eval op args with
+        | some (model, br) =>
+          if model == impl then return { t.bump br with ok := t.ok + 1 }
+          else
+            IO.println s!"MISMATCH {n} {op} model=[{model.take 300}] impl=[{impl.take 300}] args=[{(String.intercalate " " args).take 600}]"
+            return { t with mismatches := t.mismatches + 1 }
+        | none => IO.println s!"MISMATCH {n} bad-args {lhs.take 200}"; return { t with mismatches := t.mismatches + 1 }
+      | [] => IO.println s!"MISMATCH {n} empty"; return { t with mismatches := t.mismatches + 1 }
+    | _ => IO.println s!"MISMATCH {n} bad-line {l.take 200}"; return { t with mismatches := t.mismatches + 1 }
+  IO.println t.summary
   return 0
 end Driver.Ckpt
